@@ -1,6 +1,7 @@
 /-!
-Hand model of the *decision logic* of three float kernels of `xdsl/interpreters/arith.py`
-(`ArithFunctions.run_minimumf`, `run_maximumf`, `run_cmpf`) over an abstract float type: the IEEE
+Hand model of the *decision logic* of six float kernels of `xdsl/interpreters/arith.py`
+(`ArithFunctions.run_minimumf`, `run_maximumf`, `run_cmpf`, and `run_addf`, `run_subf`, `run_mulf` with
+`_round_to_float_type`) over an abstract float type: the IEEE
 primitives Python applies (`math.isnan`, `==`, `<`, `<=`, `== 0`, `copysign(1.0, ·) < 0`) are the
 fields of `FloatOps`; Python's `x > y`, `x >= y`, `x != y` on floats are `lt y x`, `le y x`,
 `!(eq x y)` (CPython `float_richcompare`), `min(a, b)` is `b if b < a else a`, `max(a, b)` is
@@ -95,6 +96,71 @@ def showF (x : Float) : String :=
 
 def readF (s : String) : Option Float := s.toNat?.map fun n => Float.ofBits (UInt64.ofNat n)
 
+/-! ### the arithmetic kernels `run_addf`, `run_subf`, `run_mulf`
+
+`_round_to_float_type(value, typ)`: the operation is carried out on Python floats (binary64); for a
+result type narrower than binary64 (`isinstance(typ, Float32Type | Float16Type | BFloat16Type |
+ReducedPrecisionFloatType)`) the result is re-packed in the type (`typ.unpack(typ.pack((value,)), 1)[0]`),
+and the `OverflowError` that `struct.pack` raises for a finite value beyond the type's range becomes
+`copysign(inf, value)`; for every other type the value is returned unchanged. -/
+
+/-- the primitives used by the three arithmetic kernels; `Ty` = result types -/
+structure RoundOps (F Ty : Type) where
+  /-- `a + b`, `a - b`, `a * b` on Python floats -/
+  add : F → F → F
+  sub : F → F → F
+  mul : F → F → F
+  /-- the `isinstance` test of `_round_to_float_type` -/
+  narrow : Ty → Bool
+  /-- `typ.unpack(typ.pack((x,)), 1)[0]`; `none` = `OverflowError` -/
+  repack : Ty → F → Option F
+  /-- `copysign(inf, x)` -/
+  copysignInf : F → F
+
+variable {Ty : Type}
+
+/-- `_round_to_float_type` -/
+def round_to_float_type (R : RoundOps F Ty) (value : F) (ty : Ty) : F :=
+  if R.narrow ty then
+    match R.repack ty value with
+    | some r => r
+    | none => R.copysignInf value
+  else value
+
+/-- `ArithFunctions.run_addf` (`ty` = `op.result.type`) -/
+def run_addf (R : RoundOps F Ty) (ty : Ty) (a b : F) : F := round_to_float_type R (R.add a b) ty
+/-- `ArithFunctions.run_subf` -/
+def run_subf (R : RoundOps F Ty) (ty : Ty) (a b : F) : F := round_to_float_type R (R.sub a b) ty
+/-- `ArithFunctions.run_mulf` -/
+def run_mulf (R : RoundOps F Ty) (ty : Ty) (a b : F) : F := round_to_float_type R (R.mul a b) ty
+
+/-- which arm of `_round_to_float_type` is taken -/
+def roundArm (R : RoundOps F Ty) (value : F) (ty : Ty) : String :=
+  if R.narrow ty then (match R.repack ty value with | some _ => "rounded" | none => "overflow") else "wide"
+
+/-- result types of the driver instance -/
+inductive NTy | f32 | f64 | other
+deriving DecidableEq, Repr
+
+/-- instance over Lean's native floats: Python floats are `Float`; re-packing in `f32` is the
+conversion `Float → Float32 → Float` (CPython `PyFloat_Pack4` raises `OverflowError` exactly when
+the converted value is infinite and the argument is not). -/
+def nativeRound : RoundOps Float NTy where
+  add := fun a b => a + b
+  sub := fun a b => a - b
+  mul := fun a b => a * b
+  narrow := fun t => t == .f32
+  repack := fun t x =>
+    match t with
+    | .f32 =>
+      let r := x.toFloat32.toFloat
+      if r.isInf && !x.isInf then none else some r
+    | _ => some x
+  copysignInf := fun x => if x.toBits >>> 63 == 1 then -(1.0 / 0.0) else 1.0 / 0.0
+
+def readTy (s : String) : Option NTy :=
+  if s = "f32" then some .f32 else if s = "f64" then some .f64 else if s = "other" then some .other else none
+
 /-- which arm of the min/max decision tree is taken -/
 def branch (O : FloatOps F) (a b : F) : String :=
   if O.isNaN a || O.isNaN b then "nan" else if O.isZero a && O.isZero b then "zeros" else "order"
@@ -103,6 +169,7 @@ def branch (O : FloatOps F) (a b : F) : String :=
 Protocol (floats travel as decimal binary64 bit patterns; NaN results are printed as `nan`):
 * `minimumf a b` / `maximumf a b` → `<branch> f <bits>` | `<branch> nan`
 * `cmpf p a b` → `bool true|false` | `none`
+* `addf|subf|mulf f32|f64|other a b` → `<wide|rounded|overflow> f <bits>` | `… nan`
 -/
 def lineStep (st : Unit) (line : String) : Unit × String :=
   let ws := (line.splitOn " ").filter (· ≠ "")
@@ -123,6 +190,14 @@ def lineStep (st : Unit) (line : String) : Unit × String :=
          (match run_cmpf nativeOps p x y with
           | some r => "bool " ++ (if r then "true" else "false")
           | none => "none")
+       | _, _, _ => "bad-op")
+    | [op, ty, a, b] =>
+      (match readTy ty, readF a, readF b with
+       | some t, some x, some y =>
+         if op = "addf" then roundArm nativeRound (x + y) t ++ " " ++ showF (run_addf nativeRound t x y)
+         else if op = "subf" then roundArm nativeRound (x - y) t ++ " " ++ showF (run_subf nativeRound t x y)
+         else if op = "mulf" then roundArm nativeRound (x * y) t ++ " " ++ showF (run_mulf nativeRound t x y)
+         else "bad-op"
        | _, _, _ => "bad-op")
     | _ => "bad-op"
   (st, out)
